@@ -29,6 +29,8 @@ import hal.simulation as hs  # noqa: E402
 import ntcore  # noqa: E402
 import wpilib  # noqa: E402
 import wpilib.simulation  # noqa: E402
+from collections.abc import Sequence  # noqa: E402
+from wpimath.geometry import Translation2d  # noqa: E402
 from magicbot import MagicRobot, feedback, will_reset_to  # noqa: E402
 
 DS = wpilib.simulation.DriverStationSim
@@ -157,24 +159,72 @@ def make_component(c, layout, variant):
             ns[k] = f
     for g in layout["feedbacks"]:
         if g["o"] == c:
-            add_getter(ns, c, g["key"], variant)
+            add_getter(ns, c, g["key"], variant, g.get("ty", "int"))
     bases = (object,)
     if base_ns:
         bases = (type("Base_" + c, (object,), base_ns),)
     return type("Comp_" + c, bases, ns)
 
 
-def add_getter(ns, o, key, variant):
+T2 = Translation2d
+FB_DOM = {
+    "bool": [False, True], "float": [1.5, 2.25, -0.5], "str": ["a", "bc", ""], "struct": [T2(1, 2), T2(0, 0), T2(-3, 4.5)],
+    "int[]": [[1, 2], [3], [4, 5, 6]], "float[]": [[1.5], [2.0, 3.0], [0.25, 0.5, 0.75]],
+    "bool[]": [[True, False], [False], [True, True, True]], "str[]": [["a"], ["b", "c"], ["", "d"]],
+    "struct[]": [[T2(1, 2)], [T2(0, 0), T2(1, 1)], [T2(2, 2), T2(3, 3), T2(4, 4)]],
+}
+FB_ANN = {"int": int, "float": float, "bool": bool, "str": str, "struct": T2, "int[]": list[int], "float[]": Sequence[float],
+          "bool[]": tuple[bool, ...], "str[]": list[str], "struct[]": list[T2]}
+
+
+def add_getter(ns, o, key, variant, ty="int"):
+    def getter(self):
+        r = HOOK("feedback", o, key=key)
+        if ty in ("int", "none"):
+            return r
+        dom = FB_DOM[ty]
+        return dom[r % len(dom)]
+    if ty != "none":
+        getter.__annotations__ = {"return": FB_ANN[ty]}
     if variant % 2 == 0:
-        def getter(self) -> int:
-            return HOOK("feedback", o, key=key)
         getter.__name__ = "get_" + key
         ns[getter.__name__] = feedback(getter)
     else:
-        def getter(self) -> int:
-            return HOOK("feedback", o, key=key)
         getter.__name__ = "read_" + key
         ns[getter.__name__] = feedback(key=key)(getter)
+
+
+def read_feedback(inst, path, ty):
+    """-> (value code, type string) read independently of the code under test"""
+    topic = inst.getTopic(path)
+    if not topic.exists():
+        return -1, "absent"
+    ts = topic.getTypeString()
+    if not inst.getEntry(path).getValue().isValid():
+        return -1, ts            # the topic was announced (typed publisher) but nothing was published yet
+    try:
+        if ty == "struct":
+            v = ntcore.StructTopic(topic, T2).subscribe(T2(99, 99)).get()
+        elif ty == "struct[]":
+            v = ntcore.StructArrayTopic(topic, T2).subscribe([]).get()
+        else:
+            v = inst.getEntry(path).getValue().value()
+    except Exception:
+        return -3, ts
+    if ty in ("int", "none"):
+        if isinstance(v, bool) or not isinstance(v, (int, float)) or v != int(v):
+            return -2, ts
+        return int(v), ts
+    for i, d in enumerate(FB_DOM[ty]):
+        try:
+            if isinstance(d, list):
+                if isinstance(v, (list, tuple)) and len(v) == len(d) and list(v) == d:
+                    return i, ts
+            elif type(v) is type(d) and v == d:
+                return i, ts
+        except Exception:
+            pass
+    return -2, ts
 
 
 def make_robot(layout, uid):
@@ -198,7 +248,7 @@ def make_robot(layout, uid):
         base_ns[name] = mk(name)
     for g in layout["feedbacks"]:
         if g["o"] == "robot":
-            add_getter(base_ns, "robot", g["key"], uid)
+            add_getter(base_ns, "robot", g["key"], uid, g.get("ty", "int"))
     Base = type("Robot%d_Base" % uid, (MagicRobot,), base_ns)
     return type("Robot%d" % uid, (Base,), {"__annotations__": {c: classes[c] for c in comps[nbase:]}})
 
@@ -358,6 +408,9 @@ class ScriptPolicy:
 
 
 # ------------------------------------------------------------------------------------------------
+FB_TYPES = ["int", "int", "int", "none", "float", "bool", "str", "struct", "int[]", "float[]", "bool[]", "str[]", "struct[]"]
+
+
 def gen_layout(rng, uid):
     n = rng.choice([1, 2, 2, 3])
     comps = ["c%d_%d" % (i, uid) for i in range(n)]
@@ -372,9 +425,9 @@ def gen_layout(rng, uid):
         redeclare[c] = [a for a in resets[c] if a not in inherit[c] and rng.random() < 0.3]
         shadow[c] = ["p"] if rng.random() < 0.25 else []
         if rng.random() < 0.5:
-            fbs.append({"o": c, "key": rng.choice(["k_%s", "widget_%s", "budget_left_%s"]) % c})
+            fbs.append({"o": c, "key": rng.choice(["k_%s", "widget_%s", "budget_left_%s"]) % c, "ty": rng.choice(FB_TYPES)})
     if rng.random() < 0.4:
-        fbs.append({"o": "robot", "key": rng.choice(["rk_%d", "target_%d"]) % uid})
+        fbs.append({"o": "robot", "key": rng.choice(["rk_%d", "target_%d"]) % uid, "ty": rng.choice(FB_TYPES)})
     nm = rng.choice([0, 1, 1, 2])
     modes = ["m%d_%d" % (i, uid) for i in range(nm)]
     defmode = rng.choice(modes + ["none"]) if modes else "none"
@@ -443,11 +496,12 @@ def run_history(tid, layout, fms, policy_factory, scratch):
         if not Rec.waiting.is_set():
             break
         # the robot thread is blocked: observe, deliver inputs, advance the clock to the alarm
-        fb = {}
+        fb, fbt = {}, {}
         for g in layout["feedbacks"]:
             path = ("/robot/" if g["o"] == "robot" else "/components/%s/" % g["o"]) + g["key"]
-            fb[g["key"]] = inst.getEntry(path).getInteger(-1)
+            fb[g["key"]], fbt[g["key"]] = read_feedback(inst, path, g.get("ty", "int"))
         Rec.log[-1]["fb"] = fb
+        Rec.log[-1]["fbt"] = fbt
         Rec.log[-1]["t"] = wpilib.RobotController.getFPGATime() - Rec.t0
         evs = [None] if ended else pol.env_events()
         if evs is None:
